@@ -133,9 +133,17 @@ func c05(env *core.Env, unify bool) {
 		}
 	}
 	// which member(s) get each item
+	// for Tags/Referrers through a unifier: the repository may be unknown to one member
+	absentFrom := -1
+	if unify && what != "Repositories" && c.Bool("repo-absent-from-one-member", 1, 3) {
+		absentFrom = c.Int("absent.member", 2)
+	}
 	member := func() []int {
 		if !unify {
 			return []int{0}
+		}
+		if absentFrom >= 0 {
+			return []int{1 - absentFrom}
 		}
 		return [][]int{{0}, {1}, {0, 1}}[c.Int("member", 3)]
 	}
@@ -156,7 +164,7 @@ func c05(env *core.Env, unify bool) {
 			}
 		}
 		// siblings that share a textual prefix with the sub prefix, and unrelated names
-		for _, extra := range []string{"pre2/a", "prefix/a", "pre/fixx/a", "xx", "zz/top"} {
+		for _, extra := range []string{"pre2/a", "prefix/a", "pre/fixx/a", "xx", "zz/top", "pre-x/a", "pre.d/b", "pre/fix-2/c", "pre/fix.x/d", "x-1", "x.y/z"} {
 			if c.Bool("sibling", 1, 3) {
 				backendItems = append(backendItems, extra)
 				for _, mi := range member() {
@@ -165,8 +173,10 @@ func c05(env *core.Env, unify bool) {
 			}
 		}
 	case "Tags":
-		for _, m := range mems {
-			mkRepo(m, backendRepo)
+		for mi, m := range mems {
+			if mi != absentFrom {
+				mkRepo(m, backendRepo)
+			}
 		}
 		for i := 0; i < nItems; i++ {
 			tag := fmt.Sprintf("t%02d", c.Int("tagname", 60))
@@ -182,8 +192,10 @@ func c05(env *core.Env, unify bool) {
 			}
 		}
 	case "Referrers":
-		for _, m := range mems {
-			mkRepo(m, backendRepo)
+		for mi, m := range mems {
+			if mi != absentFrom {
+				mkRepo(m, backendRepo)
+			}
 		}
 		subject = reg.Sha256([]byte("subject"))
 		expectDescs = map[string]ociregistry.Descriptor{}
@@ -230,7 +242,9 @@ func c05(env *core.Env, unify bool) {
 	if unify {
 		m0 := reg.Wrap(mems[0], trackers[0], nil)
 		var m1 ociregistry.Interface = reg.Wrap(mems[1], trackers[1], nil)
-		if faultKind == "member" {
+		if faultKind == "member" && absentFrom == 1 {
+			m0 = reg.Wrap(mems[0], trackers[0], bplan)
+		} else if faultKind == "member" {
 			m1 = reg.Wrap(mems[1], trackers[1], bplan)
 		} else if faultKind == "backend-iter" {
 			m0 = reg.Wrap(mems[0], trackers[0], bplan)
